@@ -706,6 +706,9 @@ func (t *Translator) emitFunc(fi *funcInfo) string {
 			rt = "(" + fi.recvT.coq() + " * " + rt + ")"
 		}
 	}
+	if strings.Contains(rt, " ") && !strings.HasPrefix(rt, "(") {
+		rt = "(" + rt + ")"
+	}
 	lc := &lctx{ret: func(v string) string { return "Ret " + v }}
 	body := c.stmts(fi.decl.Body.List, en, lc, kont{f: func(e *env) string {
 		if len(fi.results) > 0 {
